@@ -351,7 +351,7 @@ func (c *cluster) reload(cli EtcdClient) {
 	c.lock.Lock()
 	// cancel the previous watches
 	close(c.done)
-	c.watchGroup.Wait()
+	previous := c.watchGroup
 	var keys []watchKey
 	for wk, wval := range c.watchers {
 		keys = append(keys, wk)
@@ -363,6 +363,11 @@ func (c *cluster) reload(cli EtcdClient) {
 	c.done = make(chan lang.PlaceholderType)
 	c.watchGroup = threading.NewRoutineGroup()
 	c.lock.Unlock()
+
+	// wait for the previous watches without holding the lock, a watch goroutine
+	// that is handling events or loading needs the lock to finish, waiting for it
+	// with the lock held blocks both forever.
+	previous.Wait()
 
 	// start new watches
 	for _, key := range keys {
